@@ -338,7 +338,8 @@ Inductive op :=
 | PA (sid vrf : N) (s4 s6 : option N) (spd : option item) (o4 o6 od : option N)
 | PI (sid : N) (a : option N)
 | PT (sid : N)
-| ID (isreq : bool) (sid vrf : N) (s4 o4 : option N)
+| ID (isreq bind : bool) (rq : option N) (sid vrf : N) (s4 o4 : option N)
+    (* bind: the ACK is recorded (handleAck); rq: the address a REQUEST names in option 50 *)
 | IS (sid vrf : N) (s6 : option N) (spd : option item) (o6 od : option N)
 | IR (sid : N)
 | IT (sid : N)
@@ -480,14 +481,15 @@ Definition id_ctx (s : sess) (vrf : N) (s4 o4 : option N) : sess :=
    dereference a nil *IPPool: the handler panics (result None below). *)
 Definition prov_net_has (r : reg) (x : N) : bool :=
   existsb (fun p => match p_geom p with GRange lo _ _ => x / 65536 =? lo / 65536 | _ => false end) (fam_pools F4 r).
-Definition unresolved (v : variant) (r : reg) (pr : prov) (s0 : sess) (isreq : bool) : option (prov * option N) :=
+Definition unresolved (v : variant) (r : reg) (pr : prov) (s0 : sess) (isreq : bool) (rq : option N)
+  : option (prov * option N) :=
   if d4 v then
     match assoc (s_mac s0) (by_mac pr) with
     | Some id =>
         match lassoc id (objs pr) with
         | Some l =>
             if isreq then
-              match s_told s0 with
+              match rq with
               | Some t => if t =? l_ip l
                           then if prov_net_has r (l_ip l)
                                then Some (mkProv (lset id (mkLease (l_ip l) (l_mac l) (l_sid l) (l_pool l) false) (objs pr))
@@ -503,18 +505,20 @@ Definition unresolved (v : variant) (r : reg) (pr : prov) (s0 : sess) (isreq : b
     | None => None
     end
   else None.
-Definition told_sess (s : sess) (x : N) (isreq : bool) : sess :=
+Definition told_sess (s : sess) (x : N) (bind : bool) : sess :=
   mkSess (s_id s) false (s_prof4 s) (s_prof6 s) (s_mac s) true true (s_vrf s) (s_ov4 s) (s_ov6 s) (s_ovd s)
-         (s_a4 s) (s_a6 s) (s_ad s) None None (Some x) false (if isreq then Some x else s_b4 s) (s_b6 s) (s_bd s).
-Definition id_nil (v : variant) (st : state) (r : reg) (s : sess) (isreq : bool) : list (state * out) :=
-  match unresolved v r (st_prov st) s isreq with
-  | Some (pr', Some x) => [(mkState r (put_sess (told_sess s x isreq) (st_sess st)) pr', OId isreq (IdTold x) (s_a4 s))]
+         (s_a4 s) (s_a6 s) (s_ad s) None None (Some x) false (if bind then Some x else s_b4 s) (s_b6 s) (s_bd s).
+Definition id_nil (v : variant) (st : state) (r : reg) (s : sess) (isreq bind : bool) (rq : option N)
+  : list (state * out) :=
+  match unresolved v r (st_prov st) s isreq rq with
+  | Some (pr', Some x) => [(mkState r (put_sess (told_sess s x bind) (st_sess st)) pr', OId isreq (IdTold x) (s_a4 s))]
   | Some (_, None) => [(mkState r (put_sess s (st_sess st)) (st_prov st), OId isreq IdPanic (s_a4 s))]
   | None => [(mkState r (put_sess s (st_sess st)) (st_prov st), OId isreq IdNil (s_a4 s))]
   end.
-Definition step_id_core (v : variant) (st : state) (s0 : sess) (isreq : bool) : list (state * out) :=
+Definition step_id_core (v : variant) (st : state) (s0 : sess) (isreq bind : bool) (rq : option N)
+  : list (state * out) :=
   match s_prof4 s0 with
-  | None => id_nil v st (st_reg st) s0 isreq
+  | None => id_nil v st (st_reg st) s0 isreq bind rq
   | Some _ =>
     bindl (acquire v F4 (s_prof4 s0) (s_ov4 s0) (s_vrf s0) (s_id s0) (oitem (s_a4 s0)) (st_reg st)) (fun c =>
       match c with (r1, a4, pk, ok) =>
@@ -522,21 +526,21 @@ Definition step_id_core (v : variant) (st : state) (s0 : sess) (isreq : bool) : 
                        (s_ov6 s0) (s_ovd s0) (oaddr a4) (s_a6 s0) (s_ad s0) None None (s_told s0) false
                        (s_b4 s0) (s_b6 s0) (s_bd s0) in
       match (if ok then oaddr a4 else None) with
-      | None => id_nil v st r1 s1 isreq
+      | None => id_nil v st r1 s1 isreq bind rq
       | Some x =>
           match prov_reserve v (st_prov st) r1 x (s_mac s0) (s_id s0) pk with
           | (pr', r2, true) =>
               let s2 := mkSess (s_id s1) false (s_prof4 s1) (s_prof6 s1) (s_mac s1) true true (s_vrf s1)
                                (s_ov4 s1) (s_ov6 s1) (s_ovd s1) (s_a4 s1) (s_a6 s1) (s_ad s1) None None (Some x)
-                               false (if isreq then Some x else s_b4 s1) (s_b6 s1) (s_bd s1) in
+                               false (if bind then Some x else s_b4 s1) (s_b6 s1) (s_bd s1) in
               [(mkState r2 (put_sess s2 (st_sess st)) pr', OId isreq (IdTold x) (s_a4 s2))]
           | (pr', r2, false) => [(mkState r2 (put_sess s1 (st_sess st)) pr', OId isreq IdErr (s_a4 s1))]
           end
       end
       end)
   end.
-Definition step_id (v : variant) (st : state) (s : sess) (isreq : bool) (vrf : N) (s4 o4 : option N)
-  : list (state * out) := step_id_core v st (id_ctx s vrf s4 o4) isreq.
+Definition step_id (v : variant) (st : state) (s : sess) (isreq bind : bool) (rq : option N) (vrf : N)
+           (s4 o4 : option N) : list (state * out) := step_id_core v st (id_ctx s vrf s4 o4) isreq bind rq.
 
 (* IPoE: (NewContext on first use) ResolveV6; at function level the advertised binding is the bound one *)
 Definition is_ctx (s : sess) (vrf : N) (s6 : option N) (spd : option item) (o6 od : option N) : sess :=
@@ -617,9 +621,9 @@ Definition step (v : variant) (st : state) (o : op) : list (state * out) :=
       | Some s => if s_ppp s then step_pt v st s else skip st
       | None => skip st
       end
-  | ID isreq sid vrf s4 o4 =>
+  | ID isreq bind rq sid vrf s4 o4 =>
       match find_sess sid st with
-      | Some s => if negb (s_ppp s) && s_live s then step_id v st s isreq vrf s4 o4 else skip st
+      | Some s => if negb (s_ppp s) && s_live s then step_id v st s isreq bind rq vrf s4 o4 else skip st
       | None => skip st
       end
   | IS sid vrf s6 spd o6 od =>
